@@ -33,6 +33,27 @@ CHECKS = {
                      'expression is defined; in()/data_in()/default construction; floating reps bit for bit.',
                 note=TRUST + 'layout/triviality/result types are compile-time facts, not decided. One open known finding (KF-C13-1, -0.0 through QuantityPoint::in).',
                 ref='5 (C13)', tech=H),
+    'C06': dict(text='Every permitted implicit conversion of the grid is an exact multiplication by k whenever x*k fits, and is exact and UB-free with NO precondition for |x| <= 2147; '
+                     'can_scale_without_overflow equals (v*k <= max) for all v; OVERFLOW_THRESHOLD == 2147.',
+                note=TRUST + 'That the compile-time predicate is total and equals the documented formula is a trait, not decidable by a function contract: not claimed.', ref='5 (C06)', tech=H),
+    'C11': dict(text='Function contracts (goto-instrument --dfcc --enforce-contract, callees replaced by their contracts) on stdx::cmp_equal/not_equal/less/greater/less_equal/'
+                     'greater_equal and in_range: equal to the mathematical relation for all values of each type pair; checked_int_pow<uintmax_t>: loop contract proving that no '
+                     'multiplication wraps and no division by zero happens on any path (guarded products; own loop VCs on the int-blast/z3 route).',
+                note=TRUST + 'NOT decided: value == base^exp, product, root, long double evaluation, compile-time classification (representable_in, is_integer, ...).', ref='5 (C11)',
+                tech='CBMC function contracts via goto-instrument --dfcc (enforce + replace-call-with-contract); loop-contract VCs generated by ll2c for the SMT route'),
+    'C12': dict(text='Function contracts with loop contracts (invariant + decreases) enforced per function by goto-instrument --dfcc, callees replaced by contracts: add_mod, sub_mod, '
+                     'half_mod_odd exact residues without wrap-around; decompose; bool_sign; as_int; increment; absolute_diff; gcd; multiplicity; pow_mod, miller_rabin, '
+                     'x_squared_plus_t_mod_n, double/increment_strong_lucas_index, find_strong_lucas_element: result ranges, memory safety (bits[64]) and every callee precondition.',
+                note=TRUST + 'ASSUMED, not proved: mul_mod/pow_mod return the exact residue; Baillie-PSW exact on 64 bits; find_prime_factor returns a prime; gcd/is_perfect_square/jacobi '
+                             'functional correctness; D.mag < 2^31. Type-level mag<a>()*mag<b>() == mag<a*b>() is N/A.', ref='5 (C12)',
+                tech='CBMC function + loop contracts via goto-instrument --dfcc --enforce-contract --replace-call-with-contract --apply-loop-contracts on un-promoted clang IR'),
+    'C17': dict(text='as_quantity(d) has d\'s count in seconds*Period, Quantity -> duration -> count is the identity, as_chrono_duration keeps value and Period, for every bit pattern; mixed '
+                     'duration/quantity comparisons, sums and differences equal the result of the lowered std::chrono operator and the exact order, whenever chrono\'s own products fit.',
+                note=TRUST + "libstdc++'s <chrono> is lowered by the same pipeline. Acceptance 'exactly when the quantity would be' is compile-time: not claimed.", ref='5 (C17)', tech=H),
+    'C18': dict(text='string_size_unsigned: loop contract (invariant x*10^(d-1) <= x0 < (x+1)*10^(d-1), decreases x) proving 10^(r-1) <= x < 10^r for all 2^64 inputs (step split into the 20 '
+                     'digit-count cases); string_size against that contract; StringConstant::join on run-time characters (in-bounds, joined text, NUL, size); label constants of grid units.',
+                note=TRUST + 'operator<< (iostreams) not decided; label text only for the listed units.', ref='5 (C18)',
+                tech='loop-contract VCs generated by ll2c (base/step/variant) decided by cvc5 int-blast / z3 / SAT; constant-trip-count loops fully unwound with unwinding assertions'),
     'C19': dict(text='For every value (all bit patterns for floating reps): comparisons with ZERO equal comparisons with 0 in both orders, q+-ZERO == q, '
                      'Quantity(ZERO) holds 0, T(ZERO) == 0, duration(ZERO).count() == 0.', note=TRUST + 'point rejection N/A.', ref='5 (C19)', tech=H),
 }
